@@ -10,6 +10,7 @@ import (
 	"encoding/binary"
 	"fmt"
 	"io"
+	"strconv"
 	"strings"
 
 	"verif/internal/ref/lzref"
@@ -221,7 +222,7 @@ func AcceptsFrame(b []byte, code byte, usize, csize int, offset string) (ok bool
 	// transfer because of it: only its structure (NUL termination, header length) is part of the
 	// verdict. (Title conformance of what the library *sends* is judged by the peer in C05.)
 	switch {
-	case f.Offset != offset:
+	case !sameOffset(f.Offset, offset):
 		return false, "offset differs from the requested one", nil
 	case !f.ChecksumOK:
 		return false, "8-bit checksum", nil
@@ -239,6 +240,21 @@ func AcceptsFrame(b []byte, code byte, usize, csize int, offset string) (ok bool
 		return false, "message: " + err.Error(), nil
 	}
 	return true, "", out
+}
+
+// sameOffset: the offset field is a decimal number (1..6 digits); "00" names the same offset as "0".
+func sameOffset(got, want string) bool {
+	if len(got) < 1 || len(got) > 6 {
+		return false
+	}
+	for i := 0; i < len(got); i++ {
+		if got[i] < '0' || got[i] > '9' {
+			return false
+		}
+	}
+	g, _ := strconv.Atoi(got)
+	w, err := strconv.Atoi(want)
+	return err == nil && g == w
 }
 
 // ---- minimal Winlink message structure -------------------------------------------------------
